@@ -29,6 +29,7 @@ var (
 func checkC05(c *chk.Ctx) {
 	h := newH(c)
 	c.Decided = []string{
+		"R05k at most one node is asked to lead a term: no second BecomeLeader request (to another node) without a term increment in between",
 		"R05j the file-backed metadata provider compares the expected version with the version it reads from the file in the same Store call (a remembered copy does not fence off a second coordinator process writing the same file)",
 		"R05a the coordinator stores the incremented term (UpdateShardMetadata) on every path before any NewTerm RPC; the term is only incremented in the election function",
 		"R05b the result of the metadata Store retry is not discarded (open finding F14: it is)",
@@ -53,6 +54,7 @@ func checkC05(c *chk.Ctx) {
 	ruleR05h(h)
 	ruleStatusSwapFresh(h, "R05i")
 	ruleR05j(h)
+	ruleOneBecomeLeaderPerTerm(h, "R05k")
 }
 
 func ruleR05a(h *H) { ruleR05aInto(h, "R05a") }
